@@ -22,9 +22,9 @@ tests=$(grep -oE '^func (Test[A-Za-z0-9_]+)' $demo | awk '{print $2}' | paste -s
 suite=$(go test -vet=off -count=1 ./... 2>&1 | tail -3 | tr '\n' ' ')
 cp $demo $pkgdir/zz_seed_demo_test.go
 RACE=""; [ "$ID" = "C18" ] && RACE="-race"
-demo_with=$(cd $pkgdir && timeout 900 go test $RACE -vet=off -count=1 -run "^($tests)\$" . 2>&1 | tail -1)
+demo_with=$(cd $pkgdir && timeout 900 env ${DEMO_ENV:-X=1} go test $RACE -vet=off -count=1 -run "^($tests)\$" . 2>&1 | tail -1)
 git checkout -- . 2>/dev/null
-demo_without=$(cd $pkgdir && timeout 900 go test $RACE -vet=off -count=1 -run "^($tests)\$" . 2>&1 | tail -1)
+demo_without=$(cd $pkgdir && timeout 900 env ${DEMO_ENV:-X=1} go test $RACE -vet=off -count=1 -run "^($tests)\$" . 2>&1 | tail -1)
 rm -f $pkgdir/zz_seed_demo_test.go
 echo "[$ID/$V] apply=$res_apply"
 echo "  suite with change:   $suite"
